@@ -91,11 +91,33 @@ var layoutRotation = func() []indep.Layout {
 			}
 		}
 	}
+	// other line ends in the text portions
+	for _, c := range []string{"pfa", "bin", "pfb", "clear"} {
+		for _, e := range []string{"std", "custom", "none"} {
+			for _, el := range []string{"cr", "crlf"} {
+				out = append(out, indep.Layout{Cont: c, LenIV: 4, Names: "RD", Enc: e, Eol: el})
+			}
+		}
+	}
 	return out
 }()
 
 // stdCodes: the few StandardEncoding codes the generator uses
 var stdCodes = map[string]int{"A": 65, "a": 97, "grave": 193, "agrave": -1, ".notdef": -1}
+
+// expandFill adds the filler glyphs a layout asks for: copies of the last glyph (and of what
+// reading it must give) under further names.
+func expandFill(v *t1Vec) {
+	n := len(v.Glyphs.Name)
+	if v.Lay.Fill <= 0 || n == 0 || len(v.Expect) != n {
+		return
+	}
+	for k := 0; k < v.Lay.Fill; k++ {
+		v.Glyphs.Name = append(v.Glyphs.Name, fmt.Sprintf("fill%04d", k))
+		v.Glyphs.Toks = append(v.Glyphs.Toks, v.Glyphs.Toks[n-1])
+		v.Expect = append(v.Expect, v.Expect[n-1])
+	}
+}
 
 func buildSpec(v *t1Vec) *indep.FontSpec {
 	f := &indep.FontSpec{FontName: "VerifTest", Toks: map[string][]indep.Tok{}, Subrs: v.Subrs, Encoding: map[int]string{}}
@@ -321,6 +343,7 @@ func checkT1(v *t1Vec, line int) *disagreement {
 	if v.Fam == "glyph" {
 		v.Lay = layoutRotation[line%len(layoutRotation)]
 	}
+	expandFill(v)
 	spec := buildSpec(v)
 	if v.Fam == "hostile" {
 		// C01c: hostile lenIV values (the cipher still uses four lead bytes), odd containers
